@@ -490,6 +490,15 @@ def cross_reference(nodes, warn=null_warn):
         elif isinstance(node, Union):
             list(map(cross_reference_types, node.members))
 
+    for node in nodes:
+        if isinstance(node, Typedef):
+            chain = set()
+            while isinstance(node, Typedef):
+                if id(node) in chain:
+                    raise ParseError([(node.name, "typedef is defined by itself")])
+                chain.add(id(node))
+                node = node.definition
+
     return constants
 
 
